@@ -107,6 +107,20 @@ fn solve<T: Sc>(t: &mut Toks, cx: &mut Ctx) -> String {
                 }
             }
         }
+        // floats (f64 and complex, any magnitudes in the non-overflowing window): a system on which an independent reference
+        // elimination with partial pivoting (ref_zero_pivot_column) meets a non-zero pivot at every step is one Gaussian
+        // elimination can solve in this arithmetic: a panic or a non-finite result there is a failure of the solver
+        // (systems singular to working precision are judged in solve_ns / solve_f, where nonsingularity is known)
+        if !T::is_exact() {
+            let mags: Vec<f64> = (0..n).flat_map(|i| (0..n).map(move |j| (i, j))).map(|(i, j)| a[(i, j)].mag64()).chain(b.vec.iter().map(|v| v.mag64())).collect();
+            let window = mags.iter().all(|m| m.is_finite() && (*m == 0.0 || (*m >= 1e-100 && *m <= 1e100)));
+            if window && !guarded(|| ref_zero_pivot_column(&a)).unwrap_or(true) {
+                for (name, r) in [("solve_basic", &r1), ("solve_lu", &r2)] {
+                    match r { Err(c) => cx.fail(format!("{}: panicked ({}) on a system the reference elimination solves", name, c)),
+                              Ok(x) => cx.check(x.vec.iter().all(|v| v.finite()), &format!("{}: non-finite result on a system the reference elimination solves", name)) }
+                }
+            }
+        }
     }
     format!("basic {} lu {}", res_vec(&r1), res_vec(&r2))
 }
@@ -436,6 +450,22 @@ pub fn gen(rng: &mut Rng, tier: Tier, out: &mut Vec<String>) {
             out.push(format!("solve c {} {}", rows_str(&gc, n, n), gen_vec_str::<Cmplx>(rng, n, 0, 1)));
         }
     } } }
+    // "whatever the magnitudes": well-conditioned systems scaled as a whole by 10^k, k in [-80, 80] (matrix and right-hand side
+    // independently), over f64 and Complex<f64>: the backward error is scale invariant; an absolute threshold, or a complex
+    // modulus / division that over- or underflows inside this window, is not
+    for i in 0..(if tier == Tier::Quick { 60 } else { 1500 }) {
+        let n = 1 + rng.below(6);
+        let (sa, sb) = (10f64.powf((rng.unit() - 0.5) * 160.0), 10f64.powf((rng.unit() - 0.5) * 160.0));
+        if i % 2 == 0 {
+            let a: Vec<Vec<f64>> = (0..n).map(|r| (0..n).map(|c| (rng.f_general(1.0) + if r == c { 3.0 * if rng.chance(50) { 1.0 } else { -1.0 } } else { 0.0 }) * sa).collect()).collect();
+            let b: Vec<f64> = (0..n).map(|_| rng.f_general(1.0) * sb).collect();
+            out.push(format!("solve f {} {}", rows_str(&a, n, n), wr_vec(&b)));
+        } else {
+            let a: Vec<Vec<Cmplx>> = (0..n).map(|r| (0..n).map(|c| { let d = if r == c { 3.0 } else { 0.0 }; Cmplx::new((rng.f_general(1.0) + d) * sa, if rng.chance(25) { 0.0 } else { rng.f_general(1.0) * sa }) }).collect()).collect();
+            let b: Vec<Cmplx> = (0..n).map(|_| Cmplx::new(rng.f_general(1.0) * sb, rng.f_general(1.0) * sb)).collect();
+            out.push(format!("solve c {} {}", rows_str(&a, n, n), wr_vec(&b)));
+        }
+    }
     // nearly singular systems with a consistent right-hand side of moderate solution: A = u v^T + d R with d = 10^[-9,-3],
     // b = A x0, |x0| = O(1). A backward-stable elimination leaves a residual of the order of eps |A||x| whatever the
     // conditioning; closed-form shortcuts (Cramer, adjugate) and dropped pivoting do not
